@@ -97,6 +97,7 @@ CHECKS["C14"] = {
     "technique": "property-based testing (rapid) + bounded-exhaustive stop-point enumeration with prefix/EOF and resynchronisation oracles",
     "nontrivial_floor": 500,
     "units": [
+        {"name": "read-timeout", "run": "^TestC14ReadTimeout$", "kind": "plain"},
         {"name": "regress", "run": "^TestC14Regress$", "kind": "plain"},
         {"name": "exhaustive-stops", "run": "^TestC14Exhaustive$", "kind": "plain", "shards": 8},
         {"name": "stream", "run": "^TestC14Stream$", "kind": "rapid", "checks": {"quick": 16000, "thorough": 400000}, "shards": {"quick": 8, "thorough": 16}},
